@@ -134,7 +134,12 @@ class World:
                 for f, key in (("redirect", "redirect_uri"), ("scope", "scope"), ("challenge", "code_challenge"), ("method", "code_challenge_method")):
                     if op.get(f) is not None:
                         form[key] = op[f]
-                r = ms.fw_call(srv, Req("POST", "https://as.example/authorize", form), "create_authorization_response", grant_user=store.users[op["user"]] if op["approve"] else None)
+                areq = Req("POST", "https://as.example/authorize", form)
+                if op.get("user_on_request") and self.framework is None:
+                    # the library's own request object as the consent step leaves it: it still names the resource owner while the decision is a denial
+                    areq.user = store.users[op["user"]]
+                    areq = srv.create_oauth2_request(areq)
+                r = ms.fw_call(srv, areq, "create_authorization_response", grant_user=store.users[op["user"]] if op["approve"] else None)
                 loc = dict(r.headers).get("Location")
                 if loc:
                     q = dict(parse_qsl(urlparse(loc).query))
@@ -249,6 +254,8 @@ def gen_history(rng, length, flavor, pkce_required=False, supported=None, strict
             ch = rng.choice([None, None, V43, s256(V43), s256(V_ALT), "short", V43 + "\n"])
             op = {"op": k, "client": cid, "redirect": rng.choice([None, uris[0], uris[-1], "https://evil/cb"]), "scope": rng.choice(scopes), "challenge": ch,
                   "method": rng.choice([None, "plain", "S256"]) if ch else rng.choice([None, None, "S256"]), "user": rng.choice([1, 2]), "approve": rng.random() < 0.85}
+            if rng.random() < 0.4:
+                op["user_on_request"] = True
         elif k == "redeem":
             code = rng.choice(codes) if codes and rng.random() < 0.9 else rng.choice([None, "code999", "garbage"])
             owner = code[1] if isinstance(code, tuple) else None
